@@ -14,7 +14,9 @@ from . import c04 as G        # my own generators / BAM encoder (C04 module)
 ID = "C05"
 RULE = ("two tables read from generated BED/BED6/VCF/SAM/FASTQ/two-line FASTA/BAM files (all Lean-modelled) and VCF with declared INFO "
         "keys (nested lazy INFO table observed through its DP key; implementation lazy vs eager only), "
-        "canonical and non-canonical text, whole and chunked read, each program run twice (lazy=True / lazy=False): random "
+        "canonical and non-canonical text, whole and chunked read, or the two registers are the first two chunks handed out by ONE reader "
+        "(read_chunk twice: objects of the same lazy class, both alive, one modified while the other is observed), a single row "
+        "t[i] with i spelled as Python int / np.int64 / np.int32 / np.intp, each program run twice (lazy=True / lazy=False): random "
         "register programs over {len, get field, t[slice|mask|int list], t[i], np.concatenate([t,u]), replace(t, f=values), iteration, "
         "todict, str(), "
         "t.f = values, tolist, write}; observation after every step (lazy writes are additionally held to C04's rule: original bytes when "
